@@ -713,14 +713,18 @@ func ruleOutRange(w *World, r *Report, fn string) {
 // scaling up; when d can be negative the form must be guarded by d > 0 or be
 // followed by the min > max clamp.
 func ruleUpperBoundForm(w *World, r *Report, cl map[*ssa.Function]bool) {
-	r.Rule("UPPER-BOUND-FORM", "the inclusive upper bound written as scale(index+1) - 1 is only valid when scaling up: each such expression is either dominated by the test shift > 0 on the same shift value, or its result is clamped by the idiom `if min > max { max = min }`")
+	r.Rule("UPPER-BOUND-FORM", "an exclusive upper bound may be turned into an inclusive one by `scale(index+1) - 1` only when scaling up: every such expression must be dominated by the test shift > 0 on the same shift value (when scaling down, (E >> b) - 1 differs from (E - 1) >> b for every E that is not a multiple of 2^b and the last cell is lost). Sites are keyed by package and order")
 	n := 0
+	ord := map[string]int{}
 	for _, f := range sortedFuncSet(w, cl) {
 		if f.Blocks == nil || f.Synthetic != "" {
 			continue
 		}
 		name := w.FuncName(f)
-		ord := 0
+		scope := "package " + relPkg(pkgOf(f))
+		if w.IsCanary(f) {
+			scope = name
+		}
 		instrs(f, func(in ssa.Instruction) {
 			sub, ok := in.(*ssa.BinOp)
 			if !ok || sub.Op != token.SUB {
@@ -729,17 +733,10 @@ func ruleUpperBoundForm(w *World, r *Report, cl map[*ssa.Function]bool) {
 			if k, ok := constInt(sub.Y); !ok || k != 1 {
 				return
 			}
-			var call *ssa.Call
-			switch x := resolve(sub.X).(type) {
-			case *ssa.Call:
-				call = x
-			case *ssa.Extract:
-				call, _ = x.Tuple.(*ssa.Call)
-			}
-			if call == nil || calleeOf(call) == nil || !w.InModule(calleeOf(call)) || len(call.Call.Args) < 2 {
+			call, ok := resolve(sub.X).(*ssa.Call)
+			if !ok || !calleeIs(call, modPath+"/common", "CalculateArithmeticShift") {
 				return
 			}
-			// first argument is (something + 1)
 			a, ok := resolve(call.Call.Args[0]).(*ssa.BinOp)
 			if !ok || a.Op != token.ADD {
 				return
@@ -747,59 +744,34 @@ func ruleUpperBoundForm(w *World, r *Report, cl map[*ssa.Function]bool) {
 			if k, ok := constInt(a.Y); !ok || k != 1 {
 				return
 			}
-			ord++
+			ord[scope]++
 			n++
-			key := fmt.Sprintf("UPPER-BOUND-FORM / %s / exclusive-bound form#%d", name, ord)
-			good, how := false, ""
-			if calleeIs(call, modPath+"/common", "CalculateArithmeticShift") {
-				d := resolve(call.Call.Args[1])
-				for _, blk := range f.Blocks {
-					t, _, i := ifSuccs(blk)
-					if i == nil {
-						continue
-					}
-					c, ok := i.Cond.(*ssa.BinOp)
-					if !ok || c.Op != token.GTR || resolve(c.X) != d {
-						continue
-					}
-					if k, ok := constInt(c.Y); !ok || k != 0 {
-						continue
-					}
-					if t == sub.Block() || blockDominatedByEdge(f, blk, t, sub.Block()) {
-						good, how = true, "guarded by shift > 0"
-					}
-				}
+			key := fmt.Sprintf("UPPER-BOUND-FORM / %s / exclusive-bound form#%d", scope, ord[scope])
+			d := resolve(call.Call.Args[1])
+			good := false
+			if k, ok := constInt(d); ok && k >= 0 {
+				good = true
 			}
-			if !good {
-				// clamp idiom: a comparison (lower > this) with a success return of (lower, lower) on the true side
-				for _, blk := range f.Blocks {
-					t, _, i := ifSuccs(blk)
-					if i == nil {
-						continue
-					}
-					c, ok := i.Cond.(*ssa.BinOp)
-					if !ok {
-						continue
-					}
-					var lower ssa.Value
-					if c.Op == token.GTR && resolve(c.Y) == ssa.Value(sub) {
-						lower = resolve(c.X)
-					} else if c.Op == token.LSS && resolve(c.X) == ssa.Value(sub) {
-						lower = resolve(c.Y)
-					} else {
-						continue
-					}
-					for _, ret := range returnsOf(f) {
-						if ret.Block() == t && len(ret.Results) >= 2 && resolve(ret.Results[0]) == lower && resolve(ret.Results[1]) == lower {
-							good, how = true, "clamped by `if min > max { return min, min }`"
-						}
-					}
+			for _, blk := range f.Blocks {
+				t, _, i := ifSuccs(blk)
+				if i == nil {
+					continue
+				}
+				c, ok := i.Cond.(*ssa.BinOp)
+				if !ok || !(c.Op == token.GTR || c.Op == token.GEQ) || resolve(c.X) != d {
+					continue
+				}
+				if k, ok := constInt(c.Y); !ok || k != 0 {
+					continue
+				}
+				if t == sub.Block() || blockDominatedByEdge(f, blk, t, sub.Block()) {
+					good = true
 				}
 			}
 			if good {
-				r.Add(Obligation{Rule: "UPPER-BOUND-FORM", Key: key, Pos: w.Pos(sub.Pos()), Status: Discharged, Detail: how, Canary: w.IsCanary(f)})
+				r.Add(Obligation{Rule: "UPPER-BOUND-FORM", Key: key, Pos: w.Pos(sub.Pos()), Status: Discharged, Detail: "in " + name + ": guarded by shift > 0", Canary: w.IsCanary(f)})
 			} else {
-				r.Add(Obligation{Rule: "UPPER-BOUND-FORM", Key: key, Pos: w.Pos(sub.Pos()), Status: Violated, Detail: "scale(index+1) - 1 is used as an inclusive upper bound although the scale may shift right (it then yields min-1 for most indices) and no clamp follows: " + shortInstr(sub), Canary: w.IsCanary(f)})
+				r.Add(Obligation{Rule: "UPPER-BOUND-FORM", Key: key, Pos: w.Pos(sub.Pos()), Status: Violated, Detail: "in " + name + ": scale(index+1) - 1 is used as an inclusive upper bound although the shift " + describeValue(call.Call.Args[1]) + " may be negative (scaling down): the last cell is lost whenever the exclusive bound is not aligned -- " + shortInstr(sub), Canary: w.IsCanary(f)})
 			}
 		})
 	}
